@@ -77,11 +77,12 @@ def _limits():
     resource.setrlimit(resource.RLIMIT_AS, (4 << 30, 4 << 30))
 
 
-def _run(drv, requests, timeout):
+def _run(drv, requests, timeout, watchdog=None):
     """returns the responses the driver managed to give before it ended (all of them normally)"""
     inp = "".join(json.dumps(r) + "\n" for r in requests)
+    env = dict(os.environ, VERIF_WATCHDOG=watchdog) if watchdog else None
     try:
-        p = subprocess.run([drv], input=inp, stdout=subprocess.PIPE, stderr=subprocess.PIPE, text=True, timeout=timeout, preexec_fn=_limits)
+        p = subprocess.run([drv], input=inp, stdout=subprocess.PIPE, stderr=subprocess.PIPE, text=True, timeout=timeout, preexec_fn=_limits, env=env)
         stdout = p.stdout
     except subprocess.TimeoutExpired as e:
         stdout = e.stdout.decode() if isinstance(e.stdout, bytes) else (e.stdout or "")
@@ -118,6 +119,12 @@ def drive(drv, requests, timeout=300, max_crashes=25):
         rest = [r for r in todo if r["id"] not in out]
         if not rest:
             break
+        # the request the driver died on is tried once more, alone and with a long watchdog: a busy machine is not a hang
+        again = _run(drv, [rest[0]], 120, watchdog="60s")
+        if rest[0]["id"] in again:
+            res.update(again)
+            todo = rest[1:]
+            continue
         c = crashed(rest[0])
         res[c["id"]] = c
         crashes += 1
